@@ -189,14 +189,30 @@ def main(tier: str) -> int:
     jlines[0:0] = ["import TFV.Generated.Src.Lehmer_mean_weighted", "import TFV.Generated.Src.Lehmer_mean_plain"]
     for which, x_, w_ in lcases:
         jlines.append("#eval IO.println (showS (Lehmer_mean_weighted %s %s))" % (q8(x_), q8(w_)) if which == "w" else "#eval IO.println (showS (Lehmer_mean_plain %s))" % q8(x_))
+    ncases = [rng.choice([-3, -1, 0, 1, 4, 8, 15, 16, 17, 40]) / 16 for _ in range(8)]
+    jlines.insert(0, "import TFV.Generated.Src.SHAGA_randn")
+    for v_ in ncases:
+        jlines.append("#eval IO.println (showS (SHAGA_randn (fun _ _ _ => (%d : Rat) / 16) (1 / 2) (1 / 10)))" % round(v_ * 16))
     jaudit = C.LEAN / "TFV" / "Audit" / "C15_np.lean"
     jaudit.parent.mkdir(parents=True, exist_ok=True)
     jaudit.write_text("\n".join(jlines) + "\n")
     with C.LeanLock():
         jpr = subprocess.run(["lake", "env", "lean", str(jaudit.relative_to(C.LEAN))], cwd=C.LEAN, capture_output=True, text=True, timeout=900)
     jgot = [l.strip() for l in jpr.stdout.splitlines() if l.strip()]
-    chk.obligation("the translated jDE regeneration functions evaluate (lake env lean TFV/Audit/C15_np.lean)", jpr.returncode == 0 and len(jgot) == len(jcases) + len(ucases) + len(lcases), (jpr.stdout + jpr.stderr)[-600:])
-    if jpr.returncode == 0 and len(jgot) == len(jcases) + len(ucases) + len(lcases):
+    chk.obligation("the translated jDE regeneration functions evaluate (lake env lean TFV/Audit/C15_np.lean)", jpr.returncode == 0 and len(jgot) == len(jcases) + len(ucases) + len(lcases) + len(ncases), (jpr.stdout + jpr.stderr)[-600:])
+    if jpr.returncode == 0 and len(jgot) == len(jcases) + len(ucases) + len(lcases) + len(ncases):
+        import thefittest.optimizers._shaga as SGM
+        saved_cauchy = SGM.cauchy_distribution
+        try:
+            sgn = _SHAGA(fitness_function=lambda x: np.sum(x, axis=1, dtype=np.float64), iters=2, pop_size=4, str_len=8)
+            for v_, g in zip(ncases, jgot[len(jcases) + len(ucases) + len(lcases):]):
+                SGM.cauchy_distribution = lambda loc, scale, size, _v=v_: np.array([_v], dtype=np.float64)
+                real = float(sgn._randn(0.5, 0.1))
+                val = None if g == "none" else int(g.split("/")[0]) / int(g.split("/")[1])
+                chk.count("np_kernel_randn")
+                (chk.agree("np_kernel:shaga_randn") if val is not None and real == val else chk.disagree("np_kernel:shaga_randn", {"input": {"cauchy_value": v_}, "impl": real, "model": g}))
+        finally:
+            SGM.cauchy_distribution = saved_cauchy
         for (which, x_, w_), g in zip(lcases, jgot[len(jcases) + len(ucases):]):
             with np.errstate(all="ignore"):
                 real = float(SHM.lehmer_mean(np.array(x_, dtype=np.float64), weight=np.array(w_, dtype=np.float64)) if which == "w" else SHM.lehmer_mean(np.array(x_, dtype=np.float64)))
